@@ -22,7 +22,6 @@ type c04Case struct {
 	script   []string // per second-phase attempt
 	cancelAt int      // -1 none; k = cancelled before attempt k
 	name     string
-	wire     int // 0: the wire form of each reply is picked by a hash of the case; k+1: form k for every reply
 
 	mu       sync.Mutex
 	xid      string
@@ -111,11 +110,13 @@ func runC04(c *Ctx) {
 		}
 	}
 
-	// every wire form of an acknowledgement and of a refusal, at the first attempt and after a transport failure
-	for form := 0; form < 8; form++ {
-		for _, last := range []string{"ok", "failed"} {
-			add(&c04Case{retries: 2, begin: "ok", cb: "nil", script: []string{last}, cancelAt: -1, wire: form + 1})
-			add(&c04Case{retries: 2, begin: "ok", cb: "nil", script: []string{"transport", last}, cancelAt: -1, wire: form + 1})
+	// every wire form of the coordinator's answer to a commit (result code x global status), at the first
+	// attempt and after a transport failure: whether it is an acknowledgement is the model's to say
+	for rc := 0; rc <= 1; rc++ {
+		for st := 0; st <= 15; st++ {
+			tok := fmt.Sprintf("w%d.%d", rc, st)
+			add(&c04Case{retries: 2, begin: "ok", cb: "nil", script: []string{tok}, cancelAt: -1})
+			add(&c04Case{retries: 2, begin: "ok", cb: "nil", script: []string{"transport", tok}, cancelAt: -1})
 		}
 	}
 
@@ -183,10 +184,20 @@ func runC04(c *Ctx) {
 			}
 			// the wire forms of an acknowledgement and of a refusal (which one: a function of the case)
 			form := (idHash(fmt.Sprintf("%s#%d", k.name, idx)) / 3) % 8
-			if k.wire > 0 {
-				form = k.wire - 1
-			}
 			_, isCommit := b.(message.GlobalCommitRequest)
+			if strings.HasPrefix(reply, "w") {
+				var rc, st int
+				fmt.Sscanf(reply, "w%d.%d", &rc, &st)
+				head := failHead("wire form")
+				if rc == 1 {
+					head = okHead()
+				}
+				c.Out.Count("wire." + reply)
+				if isCommit {
+					return Action{Body: message.GlobalCommitResponse{AbstractGlobalEndResponse: message.AbstractGlobalEndResponse{AbstractTransactionResponse: head, GlobalStatus: message.GlobalStatus(st)}}}
+				}
+				return Action{Body: message.GlobalRollbackResponse{AbstractGlobalEndResponse: message.AbstractGlobalEndResponse{AbstractTransactionResponse: head, GlobalStatus: message.GlobalStatus(st)}}}
+			}
 			switch reply {
 			case "transport":
 				return Action{TransportE: true}
@@ -373,6 +384,8 @@ func runC04(c *Ctx) {
 					fail("silent_success_cancelled", "nil returned although the context was cancelled before the second phase")
 				} else if sent == 0 {
 					fail("silent_success_unsent", "nil returned although no commit was sent")
+				} else if strings.HasPrefix(lastReply, "w") {
+					// a wire form: whether it is an acknowledgement is the model's to say (correspondence)
 				} else if lastReply == "failed" {
 					fail("refused_commit", "nil returned although the coordinator answered the commit with result code Failed")
 				} else if lastReply != "ok" {
